@@ -195,7 +195,11 @@ def run_config(mon: Monitor, cfg, workdir: str) -> None:
     dims = {"YX": (ydim, xdim), "SYX": ("band", ydim, xdim), "YXS": (ydim, xdim, "band")}[layout]
     cy, cx = cfg["chunks"]
     chunks = {"YX": (cy, cx), "SYX": (cfg["band_chunk"], cy, cx), "YXS": (cy, cx, cfg["band_chunk"])}[layout]  # pixel-interleaved sources may be split along the sample axis too
-    attrs = {} if nodata is None else {"nodata": nodata}
+    # how the array declares its nodata: the `nodata` attribute, the CF `_FillValue` attribute alone (data opened from NetCDF / Zarr), or both
+    nd_attr = cfg.get("nodata_attr") or ["nodata", "nodata", "_FillValue", "both"][cfg["data_seed"] % 4]
+    attrs = {} if nodata is None else {"nodata": nodata} if nd_attr == "nodata" else {"_FillValue": nodata} if nd_attr == "_FillValue" else {"nodata": nodata, "_FillValue": nodata}
+    if nodata is not None:
+        mon.obs["nodata_declared_via|" + nd_attr] += 1
     # what dask wraps may be Fortran ordered, a reversed / strided view or read-only (memory-mapped, frozen cache): same pixels, the oracle keeps `data`
     form = cfg.get("array_form") or random.Random(cfg["data_seed"]).choice(gen.ARRAY_FORMS)
     handed = gen.array_form(data.copy(), form)
@@ -455,7 +459,8 @@ CONFIG_WATCHDOG_S = 300
 WRITE_BOUND = 2_000_000
 
 PINNED = [
-    # a save that died half way at the same destination, then the real one: same layout, fixed-size (uncompressed) tiles, parts spilled early (C05-8 / C18-8: part files of equal size kept)
+    # nodata declared through the CF _FillValue attribute only (C05-9)
+    dict(ny=70, nx=100, layout="YX", ns=1, dtype="int16", chunks=[32, 32], band_chunk=1, nodata=-9999, blocksize=[32], compression="deflate", predictor=None, spill_sz=None, writes_per_chunk=None, stats=True, bigtiff=True, scheduler="sync", workers=2, order_seed=30, data_seed=30, crs="EPSG:3857", nodata_attr="_FillValue"),    # a save that died half way at the same destination, then the real one: same layout, fixed-size (uncompressed) tiles, parts spilled early (C05-8 / C18-8: part files of equal size kept)
     dict(ny=256, nx=240, layout="YX", ns=1, dtype="uint16", chunks=[64, 64], band_chunk=1, nodata=None, blocksize=[64], compression="none", predictor=None, spill_sz=1024, writes_per_chunk=2, stats=False, bigtiff=True, scheduler="sync", workers=2, order_seed=28, data_seed=28, crs="EPSG:3857", aborted_first=True),
     dict(ny=200, nx=150, layout="SYX", ns=2, dtype="float32", chunks=[64, 64], band_chunk=1, nodata=None, blocksize=[32], compression="none", predictor=None, spill_sz=0, writes_per_chunk=3, stats=True, bigtiff=True, scheduler="threads", workers=4, order_seed=29, data_seed=29, crs="EPSG:4326", aborted_first=True),    # very large magnitudes in every band with statistics on (seeded change C05-7: header room reserved for the statistics text, offsets computed before it is patched in)
     dict(ny=70, nx=100, layout="SYX", ns=2, dtype="float64", chunks=[32, 32], band_chunk=1, nodata=None, blocksize=[32], compression="deflate", predictor=None, spill_sz=None, writes_per_chunk=None, stats=True, bigtiff=True, scheduler="sync", workers=2, order_seed=25, data_seed=25, crs="EPSG:3857", magnitude="huge"),
